@@ -5,6 +5,7 @@ import (
 	"fmt"
 	"net"
 	"strings"
+	"time"
 
 	"github.com/plgd-dev/go-coap/v3/message"
 	"github.com/plgd-dev/go-coap/v3/message/codes"
@@ -290,7 +291,83 @@ func serverStopDuringRegistration(t string, preempt int) *mcx.Scenario {
 	}
 }
 
+// A per-peer connection of a udp server that the application has closed is torn down by two of the server's reapers
+// at once (housekeeping sweep, Stop, the next datagram of that peer): its on-close callbacks still run exactly once.
+func serverReapersScenario(second string, preempt int) *mcx.Scenario {
+	name := fmt.Sprintf("udp-server: a closed per-peer connection reaped by the housekeeping sweep and by %s at once, preempt<=%d", second, preempt)
+	return &mcx.Scenario{
+		Name:        name,
+		Bounds:      mcx.Bounds{Preempt: preempt, Env: -1, Select: 0, Delay: 1},
+		DeadlockSig: "blocked-forever/udp-server-reapers-" + second,
+		Body: func(s *vrt.Sched) func() (string, []mcx.Finding) {
+			var fs []mcx.Finding
+			fail := func(sig, format string, a ...any) {
+				fs = append(fs, mcx.Finding{Sig: sig, What: name + ": " + fmt.Sprintf(format, a...)})
+			}
+			onClose := 0
+			var u *srvw.UDP
+			vrt.App("env", func() {
+				var conns []*udpclient.Conn
+				u = srvw.NewUDP(srvw.UDPOpts{Handler: func(w *responsewriter.ResponseWriter[*udpclient.Conn], r *pool.Message) {
+					_ = w.SetResponse(codes.Content, message.TextPlain, nil)
+				}, OnNewConn: func(cc *udpclient.Conn) {
+					cc.AddOnClose(func() { onClose++; vrt.Point("inside an on-close callback") })
+					cc.AddOnClose(func() { onClose++ })
+					conns = append(conns, cc)
+				}})
+				P := &net.UDPAddr{IP: net.IPv4(10, 0, 0, 11), Port: 40001}
+				vrt.Quiesce("env: server up")
+				get := func(mid int32) []byte {
+					return srvw.EncodeUDP(message.Message{Type: message.NonConfirmable, Code: codes.GET, MessageID: mid, Token: message.Token{byte(mid)}, Options: message.Options{{ID: message.URIPath, Value: []byte("x")}}})
+				}
+				u.Send(P, get(11))
+				vrt.Quiesce("env: connection established")
+				if len(conns) != 1 {
+					fail("ENGINE/setup", "%d connections after the first datagram", len(conns))
+					return
+				}
+				_ = conns[0].Close() // the application is done with this peer
+				vrt.Quiesce("env: closed by the application")
+				vrt.Advance(time.Second)
+				now := vrt.Now()
+				vrt.App("sweep", func() {
+					if u.Tick != nil {
+						u.Tick(now)
+					}
+				})
+				vrt.App("second-reaper", func() {
+					if second == "Stop" {
+						u.S.Stop()
+					} else {
+						u.Send(P, get(12))
+					}
+				})
+				vrt.Quiesce("env: reaped")
+				if onClose != 2 {
+					fail("server-reapers/on-close-callback-count", "2 on-close callbacks registered on the closed connection, %d executions", onClose)
+				}
+				select {
+				case <-conns[0].Done():
+				default:
+					fail("server-reapers/done-not-closed", "the closed connection never completed its done signal")
+				}
+				u.S.Stop()
+				vrt.Quiesce("env: stopped")
+			})
+			return func() (string, []mcx.Finding) {
+				if u != nil {
+					u.Cleanup()
+				}
+				return fmt.Sprint(onClose), fs
+			}
+		},
+	}
+}
+
 func addServerStop(r *ev.Run, scs *[]*mcx.Scenario) {
+	for _, second := range []string{"Stop", "the next datagram of that peer"} {
+		*scs = append(*scs, serverReapersScenario(second, ev.Pick(r, 2, 3)))
+	}
 	for _, t := range []string{"tcp", "dtls"} {
 		*scs = append(*scs, serverStopDuringRegistration(t, ev.Pick(r, 1, 2)))
 	}
